@@ -7,7 +7,8 @@
        internal/pkg/source/lq/client.go    LQClient.Add / Get / Delete / ResetURL (one transaction each)
 
    Used by C15 (no double queueing, acknowledgement by id, fields kept) and meant to be reused by
-   C04 (crash / resume): the table is durable state, [reopen] is the identity, a crash keeps it.
+   C04 (crash / resume): the table is durable state, a crash keeps it, [reopen] (lq.Init) hands
+   the rows a previous run had claimed out again.
 
    SQLite is not modelled beyond what these statements need:
    * rows are kept in insertion order (only used to print them; no result depends on it);
@@ -95,8 +96,15 @@ Definition delete (d : db) (ids : list bytes) : db := filter (fun r => negb (mem
 Definition reset (d : db) (i : bytes) : db := set_status FRESH i d.
 Definition reset_all (d : db) (ids : list bytes) : db := fold_left reset ids d.
 
-(* closing and opening the file again (CREATE TABLE IF NOT EXISTS): the rows are the state *)
-Definition reopen (d : db) : db := d.
+(* closing and opening the file again (lq.Init): CREATE TABLE IF NOT EXISTS keeps the rows - they
+   are the durable state - and every row a previous run left CLAIMED is made FRESH again
+   (UPDATE urls SET status = 'FRESH' WHERE status = 'CLAIMED') *)
+Definition unclaim (r : row) : row :=
+  match r_status r with
+  | CLAIMED => Row (r_id r) (r_value r) (r_via r) (r_hops r) FRESH
+  | _ => r
+  end.
+Definition reopen (d : db) : db := map unclaim d.
 
 Inductive op :=
 | OAdd (us : list url)
